@@ -28,6 +28,12 @@ var solverCmds = []struct {
 	{"z3-5.1.0", func(f string, t time.Duration) []string {
 		return []string{"z3-new", fmt.Sprintf("-T:%d", int(t.Seconds())+1), "-smt2", f}
 	}},
+	{"z3-5.1.0/seed7", func(f string, t time.Duration) []string {
+		return []string{"z3-new", fmt.Sprintf("-T:%d", int(t.Seconds())+1), "smt.random_seed=7", "sat.random_seed=7", "-smt2", f}
+	}},
+	{"z3-5.1.0/seed42", func(f string, t time.Duration) []string {
+		return []string{"z3-new", fmt.Sprintf("-T:%d", int(t.Seconds())+1), "smt.random_seed=42", "smt.arith.random_initial_value=true", "-smt2", f}
+	}},
 	{"z3-4.8.12", func(f string, t time.Duration) []string {
 		return []string{"/usr/bin/z3", fmt.Sprintf("-T:%d", int(t.Seconds())+1), "-smt2", f}
 	}},
@@ -39,7 +45,7 @@ var solverCmds = []struct {
 func (o *Obligation) script(getValues []string) string {
 	vc := o.vc
 	var b strings.Builder
-	b.WriteString(vc.e.header())
+	b.WriteString(vc.e.headerFor(o.ExpectSat))
 	for _, l := range vc.lines[:o.Prefix] {
 		b.WriteString(l)
 		b.WriteByte('\n')
@@ -78,7 +84,7 @@ func solve(o *Obligation, dir string, timeout time.Duration, all bool, getValues
 	defer cancel()
 	type one struct {
 		name, status, out string
-		t             float64
+		t                 float64
 	}
 	ch := make(chan one, len(solverCmds))
 	var wg sync.WaitGroup
